@@ -79,7 +79,10 @@ fdprintf(const char *fmt, ...)
 	int tp;
 
 	va_list vap;
+	va_list vaq;
 	va_start(vap, fmt);
+	/* we might need the arguments twice */
+	va_copy(vaq, vap);
 
 	/* try and write */
 	tp = vsnprintf(
@@ -91,8 +94,9 @@ fdprintf(const char *fmt, ...)
 		/* ... try the formatting again */
 		tp = vsnprintf(
 			fd_aux.buf + fd_aux.bi, sizeof(fd_aux.buf) - fd_aux.bi,
-			fmt, vap);
+			fmt, vaq);
 	}
+	va_end(vaq);
 	va_end(vap);
 
 	/* reassign and out */
